@@ -60,7 +60,7 @@ def one(ctx, pts, kind, queries, family):
             ctx.corr_checked += 1
             real = vf * vf if kind in ('rmsle', 'rmspe') else vf
             if not close(real, q, 1e-12, 1e-300):
-                ctx.fail('correspondence', 'gcostQ (segment partial costs as oracle)', site, case, dict(query=qi, impl=real, model=float(q)))
+                ctx.fail('predicate', 'global-cost-equals-its-definition(partial sums, divisor, clip)', site, case, dict(query=qi, impl=real, model=float(q)))
             if kind != 'rmsle':
                 # fully exact model from the coordinates
                 ex = [F(d.call('segErrQ', [kind, core.rats(pts[:, 0]), core.rats(y), str(a), str(b)])[0]) if b - a + 1 > 2 else F(0) for a, b in zip(red, red[1:])]
@@ -73,7 +73,7 @@ def one(ctx, pts, kind, queries, family):
                     # rounding noise of y_hat = m*x+b is ~1e-16*ymax per point; squares / ratios of it stay below these scales
                     scale = (ymax ** 2) * len(seg) if kind == 'r2' else float(len(seg))
                     if not close(e_f, e_q, 1e-9, scale):
-                        ctx.fail('correspondence', 'compute_partial_cost vs exact definition', f'evaluation.compute_partial_cost[{kind}]', case, dict(segment=[a, b], impl=e_f, model=float(e_q)))
+                        ctx.fail('predicate', 'segment-partial-cost-equals-its-definition', f'evaluation.compute_partial_cost[{kind}]', case, dict(segment=[a, b], impl=e_f, model=float(e_q)))
                         break
         else:
             ctx.tag('oracle-nonfinite')
@@ -118,7 +118,7 @@ def rmse_mip(ctx, pts, red, family):
     q = F(d.call('grmseSq', [core.rats(x), core.rats(y), core.nats(red)])[0])
     ctx.corr_checked += 1
     if not close(g * g, q, 1e-9, ymax ** 2):
-        ctx.fail('correspondence', 'grmseSq', 'evaluation.compute_global_rmse', case, dict(impl_sq=g * g, model=float(q)))
+        ctx.fail('predicate', 'global-rmse-equals-its-definition', 'evaluation.compute_global_rmse', case, dict(impl_sq=g * g, model=float(q)))
     if len(red) >= 3:
         m, mad = ev.mip(pts, np.array(red))
         out = d.call('mip', [core.rats(x), core.rats(y), core.nats(red)], lambda name, a: core.rat(math.sqrt(float(F(a[0])))))
@@ -126,7 +126,7 @@ def rmse_mip(ctx, pts, red, family):
         ctx.corr_checked += 1
         sc = abs(float(qm)) + g + ymax
         if abs(float(m) - float(qm)) > 1e-7 * sc or abs(float(mad) - float(qd)) > 1e-7 * sc:
-            ctx.fail('correspondence', 'mipQ (median RMSE increase, MAD)', 'evaluation.mip', case, dict(impl=[float(m), float(mad)], model=[float(qm), float(qd)]))
+            ctx.fail('predicate', 'mip-equals-its-definition', 'evaluation.mip', case, dict(impl=[float(m), float(mad)], model=[float(qm), float(qd)]))
         # direct definition: median over interior breakpoints of rmse(delete i) - rmse(all)
         ip = [float(ev.compute_global_rmse(pts, np.delete(np.array(red), i))) - g for i in range(1, len(red) - 1)]
         if abs(float(m) - float(np.median(ip))) > 1e-12 * (abs(float(m)) + 1e-12):
